@@ -49,3 +49,5 @@ def run(ctx):
     boundaries.check_guards(ctx, 'C11.RG', 'C11')
     from .. import boundaries as _b
     _b.check_updates(ctx, 'C11.RU', 'C11')
+    from .. import boundaries as _b
+    _b.check_amounts(ctx, 'C11.RA', 'C11')
